@@ -108,6 +108,8 @@ int main(int argc, char **argv) {
                 // skewed variants (a jump of 3x / 30x the span): 64 words each
                 for (long jump = 1; jump <= 3; ++jump) for (long w = 0; w < 256; w += 32) { Task t; t.cfg = c; t.kind = 3; t.word_lo = w; t.word_hi = w + 32; t.rep = 300; t.n = 4; t.seam = jump; tasks.push_back(t); }
                 // huge variant: more than 2^15 segments on the bottom level, so that the upper levels are built by the chunked builder
+                // chunk-tail variant: the density toggles d clusters before every chunk boundary of the (possibly chunked) upper level
+                if (e.eps <= 2 && e.eps_rec > 0) for (long p : {2L, 16L}) for (long d : (thorough ? std::vector<long>{0, 1, 2, 3, 5, 9} : std::vector<long>{1, 2, 3})) { Task t; t.cfg = c; t.kind = 5; t.rep = 44000; t.p = p; t.word_lo = d; tasks.push_back(t); }
                 if (e.eps <= 2) for (long p : {2L, 16L}) for (long w : (thorough ? std::vector<long>{27, 114, 201, 228} : std::vector<long>{27, 228})) { Task t; t.cfg = c; t.kind = 3; t.word_lo = w; t.word_hi = w + 1; t.rep = 11000; t.n = 4; t.p = p; tasks.push_back(t); }
             }
             if ((fam & 4) && wide) {
@@ -145,6 +147,10 @@ int main(int argc, char **argv) {
                 if (w == t.word_lo + 3 && w % 64 == 3) run.sample(std::string("cfg=") + e.name + " family=" + s.str());
                 e.family(run, cn, prop, s);
             }
+        } else if (t.kind == 5) {
+            ks::FamilySpec s; s.kind = "chunktail"; s.chunks = t.p; s.rep = t.rep; s.word = t.word_lo;
+            if (t.p == 16 && t.word_lo == 2) run.sample(std::string("cfg=") + e.name + " family=" + s.str());
+            e.family(run, cn, prop, s);
         } else if (t.kind == 4) {
             for (long so : {-2L, -1L, 0L, 1L}) for (long eo : {-3L, -2L, -1L, 0L, 1L}) {
                 if (run.deadline_passed()) break;
